@@ -4,62 +4,131 @@
 (*                                                                         *)
 (* Every call is a future.  With the lock free a future completes on its   *)
 (* first poll with exactly the effect and result of the synchronous call   *)
-(* (the actions of Obs.tla, unchanged).  What is new:                      *)
-(*  - a subscriber polled while a write guard is alive is Pending, its     *)
-(*    waker waits on the lock (lockWait), it is woken when the guard is    *)
-(*    dropped (lwoken) and then behaves as if it had not been polled;      *)
-(*  - a writer call started while any guard is alive is a pending future   *)
-(*    (futs), woken when the last guard is dropped (fwoken) and completed  *)
-(*    by polling it again.                                                 *)
-(* tokio's RwLock is fair: behind a queued waiter other calls may be       *)
-(* Pending too.  The property does not talk about that, so NextAsync keeps *)
-(* at most one waiter queued and lets only that waiter take the lock next. *)
+(* (the actions of Obs.tla, unchanged).  What is new is waiting:           *)
+(*                                                                         *)
+(* tokio's RwLock is a FIFO-fair semaphore.  A future that cannot take the *)
+(* lock on its poll joins the queue `q`; nobody overtakes a queued waiter  *)
+(* (a reader arriving while a writer waits queues behind it).  Whenever    *)
+(* the lock is released the queue is served from its head: every waiter    *)
+(* that can be satisfied is GRANTED the lock at once -- it owns it from    *)
+(* that moment although it has not been polled yet -- and its waker is     *)
+(* woken; the first waiter that cannot be satisfied stops the service.     *)
+(* A granted waiter completes on its next poll and releases the lock (the  *)
+(* subscriber's poll and the writer calls hold it only inside the poll).   *)
+(*                                                                         *)
+(* Waiters: a subscriber polled through the stream / next() / next_ref()   *)
+(* (`get_lock` in subscriber/async_lock.rs), a writer call started while   *)
+(* the lock is taken, and the SECOND acquisition of next_ref(): it first    *)
+(* marks the update as observed under one read lock, releases it, and then *)
+(* locks again to hand out the guard; a writer queued behind the           *)
+(* subscriber gets in between, and next_ref() then returns the writer's    *)
+(* value (stage 2).                                                        *)
+(*                                                                         *)
+(* While somebody waits only the guard holder, the waiters and newly       *)
+(* arriving polls / writer calls move (NextAsync); the queue is bounded by *)
+(* MaxQ.                                                                   *)
 (***************************************************************************)
 EXTENDS Obs
 
-CONSTANT FutIds
+CONSTANTS FutIds, MaxQ
 
-VARIABLES lockWait,   \* subscribers whose last poll was Pending because the write guard was alive
-          lwoken,     \* ... and that are owed a wake-up since the guard was dropped
-          futs,       \* [FutIds -> pending writer call or NoFut]
-          fwoken      \* pending writer futures owed a wake-up
+VARIABLES q,          \* the lock's wait queue: sequence of waiters, head first
+          granted,    \* waiters that own the lock but have not been polled since
+          futs        \* [FutIds -> pending writer call or NoFut]
 
-avars == <<lockWait, lwoken, futs, fwoken>>
+avars == <<q, granted, futs>>
 allvars == <<vars, avars>>
 acore == <<core, avars>>
 
+(* next() and next_ref() of the async flavour are the same two-stage future; the stream polls in one stage *)
+TwoStageVias == {"PollNext", "PollNextRef"}
+
+(* a waiter: subscriber s polled through `via` (stage 2 = next_ref's second acquisition) or writer future f *)
+WSub(s, via, st) == [t |-> "s", id |-> s, via |-> via, st |-> st]
+WFut(f)          == [t |-> "f", id |-> f, via |-> "", st |-> 1]
+
 NoFut == [kind |-> "none", o |-> 0, a |-> 0]
 PendingFuts == {f \in FutIds : futs[f].kind # "none"}
-Quiet == PendingFuts = {} /\ lockWait = {}
+QSet == {q[i] : i \in 1..Len(q)}
+Waiting == QSet \cup granted
+WaitingSubs == {w.id : w \in {x \in Waiting : x.t = "s"}}
+(* compatibility names: who waits / who is owed a wake-up because the lock was handed to it *)
+lockWait == WaitingSubs
+lwoken == {w.id : w \in {x \in granted : x.t = "s"}}
+fwoken == {w.id : w \in {x \in granted : x.t = "f"}}
+Quiet == Waiting = {} /\ PendingFuts = {}
 
-AInit == Init /\ lockWait = {} /\ lwoken = {} /\ futs = [f \in FutIds |-> NoFut] /\ fwoken = {}
+WaiterOf(s) == CHOOSE w \in Waiting : w.t = "s" /\ w.id = s
+FutWaiter(f) == WFut(f)
 
-(* a subscriber polled under the write guard: nothing of the observable is touched *)
+(* the lock as the semaphore sees it: guards handed out plus grants not yet picked up *)
+ReadersHeld(gs, G) == {g \in GuardIds : gs[g].t = "r"} # {} \/ \E w \in G : w.t = "s"
+WriterHeld(gs, G)  == {g \in GuardIds : gs[g].t = "w"} # {} \/ \E w \in G : w.t = "f"
+Grantable(w, gs, G) == IF w.t = "s" THEN ~WriterHeld(gs, G) ELSE ~WriterHeld(gs, G) /\ ~ReadersHeld(gs, G)
+
+(* serve the queue from its head *)
+RECURSIVE Serve(_, _, _)
+Serve(qq, G, gs) == IF qq # <<>> /\ Grantable(Head(qq), gs, G) THEN Serve(Tail(qq), G \cup {Head(qq)}, gs)
+                    ELSE <<qq, G>>
+
+(* a new acquisition succeeds at once iff nobody is queued and the lock admits it *)
+ReadNow  == q = <<>> /\ ~WriterHeld(guards, granted)
+WriteNow == q = <<>> /\ ~WriterHeld(guards, granted) /\ ~ReadersHeld(guards, granted)
+
+AInit == Init /\ q = <<>> /\ granted = {} /\ futs = [f \in FutIds |-> NoFut]
+
+(* a subscriber polled while it cannot read-lock: queued, nothing of the observable is touched *)
 PollBlocked(s, via) ==
-    /\ s \in subs /\ ~SubBorrowed(s) /\ ~CanRead /\ via \in PollVias
-    /\ lockWait' = lockWait \cup {s} /\ lwoken' = lwoken \ {s}
+    /\ s \in subs /\ ~SubBorrowed(s) /\ via \in PollVias
+    /\ s \notin WaitingSubs /\ ~ReadNow /\ Len(q) < MaxQ
+    /\ q' = Append(q, WSub(s, via, 1))
     /\ armed' = [armed EXCEPT ![s] = FALSE]        \* the version waker is not registered by this poll
     /\ owed' = owed \ {s} /\ woken' = woken \ {s}
     /\ ret' = RPending
     /\ hist' = Append(hist, H(via, s, 0, 0, 0))
-    /\ UNCHANGED <<kind, val, ver, owners, weaks, subs, obs, unseen, registered, guards, futs, fwoken>>
+    /\ UNCHANGED <<kind, val, ver, owners, weaks, subs, obs, unseen, registered, guards, granted, futs>>
 
-(* the same subscriber polled again once the lock can be read *)
-PollAfterWait(s, via) ==
-    /\ s \in lockWait /\ Poll(s, via)
-    /\ lockWait' = lockWait \ {s} /\ lwoken' = lwoken \ {s}
-    /\ UNCHANGED <<futs, fwoken>>
+(* release by waiter w: the lock goes back and the queue is served; result <<queue, granted>> *)
+Release(w, gs) == Serve(q, granted \ {w}, gs)
+
+(* a waiting subscriber polled again (same call) *)
+PollWaiting(s, via) ==
+    /\ s \in WaitingSubs
+    /\ LET w == WaiterOf(s) IN
+       /\ w.via = via
+       /\ hist' = Append(hist, H(via, s, 0, 0, 0))
+       /\ IF w \notin granted
+          THEN /\ ret' = RPending                                  \* still queued
+               /\ UNCHANGED <<core, avars>>
+          ELSE IF w.st = 1
+          THEN \* it owns a read lock: the poll proper; then the lock is released and the queue served;
+               \* next_ref() then locks a second time to hand out the guard
+               /\ PollEffect(s)
+               /\ LET r == PollResult(s)
+                      sv == Release(w, guards)
+                      relock == via \in TwoStageVias /\ r.t = "Some"
+                      canNow == sv[1] = <<>> /\ ~WriterHeld(guards, sv[2])
+                  IN IF relock /\ ~canNow
+                     THEN q' = Append(sv[1], WSub(s, via, 2)) /\ granted' = sv[2] /\ ret' = RPending
+                     ELSE q' = sv[1] /\ granted' = sv[2] /\ ret' = r
+               /\ UNCHANGED <<kind, val, ver, owners, weaks, subs, guards, futs>>
+          ELSE \* stage 2 of next_ref(): whatever is current now is handed out and marked as observed
+               /\ obs' = [obs EXCEPT ![s] = ver]
+               /\ unseen' = [unseen EXCEPT ![s] = FALSE]
+               /\ ret' = RSome(val)
+               /\ LET sv == Release(w, guards) IN q' = sv[1] /\ granted' = sv[2]
+               /\ UNCHANGED <<kind, val, ver, owners, weaks, subs, armed, registered, woken, owed, guards, futs>>
 
 WriterKinds == {"Set", "SetIfNotEq", "Update"}
 
 StartWriter(o, f, k, a) ==
-    /\ o \in owners /\ ~CanWrite /\ k \in WriterKinds /\ a \in Vals
+    /\ o \in owners /\ ~WriteNow /\ k \in WriterKinds /\ a \in Vals /\ Len(q) < MaxQ
     /\ f \in FutIds \ PendingFuts
     /\ futs' = [futs EXCEPT ![f] = [kind |-> k, o |-> o, a |-> a]]
-    /\ fwoken' = fwoken \ {f}
+    /\ q' = Append(q, WFut(f))
     /\ ret' = RPending
     /\ hist' = Append(hist, H("Start" \o k, o, a, 0, f))
-    /\ UNCHANGED <<core, lockWait, lwoken>>
+    /\ UNCHANGED <<core, granted>>
 
 (* the effect of the completed writer call *)
 WriterEffect(c) ==
@@ -71,21 +140,19 @@ WriterEffect(c) ==
 PollFut(f) ==
     /\ f \in PendingFuts
     /\ hist' = Append(hist, H("PollFut", f, 0, 0, 0))
-    /\ IF CanWrite
+    /\ IF WFut(f) \in granted
        THEN /\ WriterEffect(futs[f])
-            /\ futs' = [futs EXCEPT ![f] = NoFut] /\ fwoken' = fwoken \ {f}
-            /\ UNCHANGED <<kind, owners, weaks, subs, obs, armed, guards, lockWait, lwoken>>
-       ELSE /\ ret' = RPending /\ fwoken' = fwoken \ {f}
-            /\ UNCHANGED <<core, lockWait, lwoken, futs>>
+            /\ futs' = [futs EXCEPT ![f] = NoFut]
+            /\ LET sv == Release(WFut(f), guards) IN q' = sv[1] /\ granted' = sv[2]
+            /\ UNCHANGED <<kind, owners, weaks, subs, obs, armed, guards>>
+       ELSE /\ ret' = RPending
+            /\ UNCHANGED <<core, avars>>
 
-(* dropping a guard wakes whoever waits on the lock and can now proceed *)
+(* dropping a guard releases the lock: the queue is served *)
 DropGuardA(g) ==
     /\ DropGuard(g)
-    /\ LET readable == \A h \in GuardIds \ {g} : guards[h].t # "w"
-           writable == \A h \in GuardIds \ {g} : guards[h].t = "none"
-       IN /\ lwoken' = IF readable THEN lwoken \cup lockWait ELSE lwoken
-          /\ fwoken' = IF writable THEN fwoken \cup PendingFuts ELSE fwoken
-    /\ UNCHANGED <<lockWait, futs>>
+    /\ LET sv == Serve(q, granted, [guards EXCEPT ![g] = NoGuard]) IN q' = sv[1] /\ granted' = sv[2]
+    /\ UNCHANGED futs
 
 Plain(A) == A /\ UNCHANGED avars
 
@@ -108,22 +175,39 @@ QuietNext ==
        \/ \E s \in SubIds, via \in PollVias : PollBlocked(s, via)
        \/ \E o \in OwnerIds, f \in {Smallest(FutIds \ PendingFuts)}, k \in WriterKinds, a \in Vals : StartWriter(o, f, k, a)
 
-(* somebody waits: only the guard holder and the waiter move *)
+(* somebody waits: the guard holder, the waiters and newly arriving polls / writer calls move *)
 WaitingNext ==
     /\ ~Quiet
     /\ \/ \E g \in GuardIds : DropGuardA(g)
        \/ Plain(\E g \in GuardIds : GuardGet(g))
        \/ Plain(\E g \in WriteGuards, a \in Vals : Set("g", g, a))
        \/ \E f \in FutIds : PollFut(f)
-       \/ (CanRead /\ \E s \in lockWait, via \in PollVias : PollAfterWait(s, via))
+       \/ \E s \in WaitingSubs : PollWaiting(s, WaiterOf(s).via)
+       \/ \E s \in SubIds \ WaitingSubs, via \in PollVias : PollBlocked(s, via)
+       \/ Plain(\E s \in SubIds \ WaitingSubs, via \in PollVias : ReadNow /\ Poll(s, via))
+       \/ \E o \in OwnerIds, f \in {Smallest(FutIds \ PendingFuts)}, k \in WriterKinds, a \in Vals :
+             f \in FutIds /\ StartWriter(o, f, k, a)
 
 ANext == QuietNext \/ WaitingNext
 ASpec == AInit /\ [][ANext]_allvars
 
 (***************************************************************************)
 (* C16 *)
+ATypeOK == /\ q \in Seq([t : {"s", "f"}, id : SubIds \cup FutIds, via : PollVias \cup {""}, st : {1, 2}])
+           /\ granted \subseteq [t : {"s", "f"}, id : SubIds \cup FutIds, via : PollVias \cup {""}, st : {1, 2}]
+(* a granted writer owns the lock alone; a granted reader excludes writers *)
+GrantExclusion ==
+    \A w \in granted : IF w.t = "f" THEN granted = {w} /\ LiveGuards = {} ELSE WriteGuards = {} /\ \A x \in granted : x.t = "s"
+(* "woken when the lock is released": the queue is always served as far as possible *)
+EagerService == q # <<>> => ~Grantable(Head(q), guards, granted)
+(* bookkeeping: nobody waits twice, every pending writer call waits, only live subscribers wait *)
+WaitersConsistent ==
+    /\ \A i, j \in 1..Len(q) : i # j => <<q[i].t, q[i].id>> # <<q[j].t, q[j].id>>
+    /\ \A w \in granted : w \notin QSet /\ \A x \in QSet : <<x.t, x.id>> # <<w.t, w.id>>
+    /\ \A f \in FutIds : (f \in PendingFuts) <=> (WFut(f) \in Waiting)
+    /\ WaitingSubs \subseteq subs
+(* compatibility with the single-waiter formulation *)
 LockWaitersWoken == lwoken \subseteq lockWait
-(* a woken waiter can really proceed: after the wake nothing blocks it *)
-WokenWriterCompletes == \A f \in fwoken : CanWrite
+WokenWriterCompletes == \A f \in fwoken : LiveGuards = {}
 WokenReaderProceeds == lwoken # {} => CanRead
 =============================================================================
